@@ -654,7 +654,7 @@ func (g *Gen) GenNode(depth int, root bool) *Node {
 		g.genReq(n)
 		wl := g.intn(1, g.Cfg.MaxElems, "swl") // witness length
 		g.wit[n] = Int(wl)
-		k := g.intn(0, g.Cfg.MaxTests-1, "snt")
+		k := g.intn(0, max(0, g.Cfg.MaxTests-1), "snt")
 		for i := 0; i < k; i++ {
 			switch name := pick(g, []string{"min", "max", "len", "contains", "func"}, "stn"); name {
 			case "func":
